@@ -633,7 +633,7 @@ def run_property(prop, tier, seed, jobs_n):
     for u in undecided:
         r = (u.get('reason') or '')
         short = r if len(r) <= 420 else r[:120] + ' ... ' + r[-300:]
-        key = re.sub(r'/\S+', '', short)[-160:]
+        key = re.sub(r'0x[0-9a-f]+|/\S+|\d+', '', short)[-120:]
         if key in seen_reasons:
             continue
         seen_reasons.add(key)
